@@ -647,7 +647,8 @@ must name is proved per hook call by `C09_event_names`), drum-note operands, `co
 theorem C09_full_partial {song : Song} {d : DataInfo} (hpc : PlatformClean d) {vol : Option String} {b : Built}
     (h : construct song d vol = .ok b) {bank : List (List Nat)} {group pcm f : Bytes} (hg : getMds b bank group pcm = .ok f)
     (hs : (song.tracks.map (·.1)).Pairwise (· < ·)) (hn : 0 < b.trackList.length)
-    (hsmall : ∀ ts, (mdsTree (toU8 b.seq) group pcm ts).small)
+    (hsmall : ∀ ts, entryTrees b.conv.subList.length b.conv.macroList.length bank (usedSorted b.conv) = some ts →
+      (mdsTree (toU8 b.seq) group pcm ts).small)
     (hfr : ∀ l ∈ b.trackList.map (·.2) ++ b.conv.subList, MdsRead.Frag l)
     (hlen : ∀ s ∈ b.trackStreams ++ b.subStreams, s.length < 65536) :
     ∃ mf hd, MdsResolve.parseFile f = .ok mf ∧ mf.seq = b.seq ∧ mf.group = MdsResolve.nat group ∧
